@@ -128,7 +128,7 @@ def compile_c(code, extra_flags=()):
     base = os.path.join(d, f"m{_tmp['n']}")
     with open(base + ".c", "w") as f:
         f.write(code)
-    cmd = ["gcc", "-shared", "-fPIC", "-Werror=implicit-function-declaration", "-Werror=int-conversion",
+    cmd = ["gcc", "-shared", "-fPIC", 
            *extra_flags, "-o", base + ".so", base + ".c", "-lm"]
     r = subprocess.run(cmd, capture_output=True, text=True)
     if r.returncode != 0:
